@@ -13,11 +13,17 @@ NOTE_COMMON = ('Trusted: Lean 4.33 kernel (axioms audited per run to be within p
 
 CLAIMED = {
     'C01': dict(
-        text='PARTIAL->FULL in progress. Lean theorems about an impl model of pyrtl.Simulation (per-op Python-int '
-             'arithmetic regenerated from simulation.py on every run) against the documented op table, for all '
-             'widths and values; the model is tied to the code by translator (Tie A) and by running real '
-             'Simulation and the model on generated designs with the simulator\'s own net order (Tie B); the '
-             'Spec model is the oracle for failing-input search.',
+        text='Lean theorems about an impl model of pyrtl.Simulation (per-op Python-int arithmetic regenerated from '
+             'simulation.py on every run) against the documented op table: per net for every op, all widths and '
+             'in-range values (pysim_exec_eq_spec, pysim_netFun_eq_spec); per cycle and for WHOLE RUNS of any length '
+             '(pysim_step_eq_spec, pysim_run_eq_spec, pysim_init_inv): from corresponding initial states and '
+             'in-range inputs the model of Simulation.step traces on every meaningful wire exactly the value of the '
+             'documented cycle semantics (registers one cycle late and truncated, reads before writes, writes at the '
+             'end of the cycle), under the well-formedness sanity_check enforces; any two dependency orders give '
+             'the same values; the consistent valuation exists and is unique. The model is tied to the code by '
+             'translator (Tie A) and by running real Simulation and the model on generated designs with the '
+             'simulator\'s own net order (Tie B); the Spec model is the oracle for failing-input search. PARTIAL '
+             'in that the loop structure of step/_initialize is hand-modelled (tied by correspondence only).',
         design='4 C01',
         note=NOTE_COMMON + 'Modelled, not verified: CPython dict/set iteration (as an arbitrary dependency order), '
              'the trace recorder.',
@@ -40,8 +46,11 @@ CLAIMED['C03'] = dict(
          'length (induction on the bit list). The Lean functions are tied to corecircuits._basic_* by exhaustive '
          'truth-table comparison on every run; whole-design preservation (both merge settings, reset values, '
          'memory maps, postcondition, map keys, original testbench) is checked by evaluating original and '
-         'synthesized netlists in the Lean Spec model. PARTIAL: _basic_mult and the per-net decomposition have '
-         'models/ties but no theorem yet.',
+         'synthesized netlists in the Lean Spec model. The column-compression multiplier _basic_mult is proved exact '
+         'for every operand length and value (basicMult_eq_spec: partial products, full/half-adder reduction passes '
+         'preserve the weighted bit count modulo 2^n, the loop terminates with columns of height <= 2, final ripple '
+         'addition). PARTIAL: the per-net decomposition of synthesize (which generator is applied to which net, '
+         'wire maps) is tied by the netlist comparison only.',
     design='4 C03',
     note=NOTE_COMMON + 'or_all_bits is modelled as List.any (tree shape not modelled).',
     technique='Lean 4 proof by induction on bit lists + truth-table correspondence + netlist evaluation in the Lean Spec model')
